@@ -1,5 +1,5 @@
 """C06 - result fields are mutually consistent (cost and likelihood accounting)."""
-from . import _common
+from . import _common, _metrics
 
 LEVEL = "model_checking"
 
@@ -9,4 +9,5 @@ def run(tier):
         "C06", tier, LEVEL, models=(),
         need=('empty_final_cluster','vector_beta','limit_reached','converged','multi_series','label_switch_under_unequal_per_pair_beta'),
         rule="""every completed run: per-point values, sums, means, medians, cost quantised into two-limb integers; TLC recomputes every identity; non-trivial = distinct runs with at least one label switch or an empty final cluster""",
+        extra=lambda rep, trs, tier: _metrics.big_family(rep, tier, {"C06"}),
         nontrivial=lambda t: (t['hdr']['id'],))
